@@ -236,3 +236,65 @@ func VerifC08Converge(h *verifh.H) {
 	}
 	h.Observe("dst", vJoinS(vListing(hub, "dst")))
 }
+
+// VerifC08Union: a job copying TWO source datasets into dst through the real
+// UnionDatasetSource (ids of the two sources are disjoint, so the union's
+// latest view is well defined): after every run that ends successfully the
+// sink's latest view equals the union of the sources' latest views, for every
+// history of source writes interleaved with runs, batch size, job type and
+// LatestOnly; re-running with nothing new adds nothing.
+func VerifC08Union(h *verifh.H) {
+	hub := server.VerifNewHub(h)
+	s1, err := hub.Dsm.CreateDataset("s1", nil)
+	h.Assert(err == nil, "create s1")
+	s2, err := hub.Dsm.CreateDataset("s2", nil)
+	h.Assert(err == nil, "create s2")
+	_, err = hub.Dsm.CreateDataset("dst", nil)
+	h.Assert(err == nil, "create dst")
+	batchSize := 1 + h.Choice("batchSize", 2)
+	full := h.Choice("fullsync", 2) == 1
+	latestOnly := h.Choice("latestOnly", 2) == 1
+	union := func() []string {
+		all := append(vListing(hub, "s1"), vListing(hub, "s2")...)
+		sort.Strings(all)
+		return all
+	}
+	run := func() {
+		us := &source.UnionDatasetSource{DatasetSources: []*source.DatasetSource{
+			{DatasetName: "s1", Store: hub.Store, DatasetManager: hub.Dsm, LatestOnly: latestOnly},
+			{DatasetName: "s2", Store: hub.Store, DatasetManager: hub.Dsm, LatestOnly: latestOnly},
+		}}
+		sink := &datasetSink{DatasetName: "dst", Store: hub.Store, DatasetManager: hub.Dsm}
+		spec := PipelineSpec{source: us, sink: sink, batchSize: batchSize}
+		var pl Pipeline = &IncrementalPipeline{spec}
+		if full {
+			pl = &FullSyncPipeline{spec}
+		}
+		j := &job{id: "union", title: "union", pipeline: pl, runner: vRunner(hub, 1, 1)}
+		_, err := pl.sync(j, context.Background())
+		h.Assert(err == nil, "run succeeds")
+		h.Assert(vJoinS(vListing(hub, "dst")) == vJoinS(union()), "after a successful run the sink's latest view equals the union of the sources' :: dst="+vJoinS(vListing(hub, "dst"))+" sources="+vJoinS(union()))
+	}
+	writes := h.Param("writes", 2)
+	for k := 0; k < writes; k++ {
+		toS2 := h.Choice("toS2", 2) == 1
+		id, ds := "ns0:e1", s1
+		if toS2 {
+			id, ds = "ns0:e2", s2
+		}
+		e := server.NewEntity(id, 0)
+		e.Properties["ns0:tag"] = "w" + itoa(k)
+		e.IsDeleted = h.Choice("del", 2) == 1
+		h.Assert(ds.StoreEntities([]*server.Entity{e}) == nil, "source write")
+		if k == 0 || h.Choice("runNow", 2) == 1 {
+			run()
+		}
+	}
+	run()
+	n := vFeedLen(hub, "dst")
+	run()
+	if !full {
+		h.Assert(vFeedLen(hub, "dst") == n, "re-running with nothing new adds nothing to the sink")
+	}
+	h.Observe("dst", vJoinS(vListing(hub, "dst")))
+}
